@@ -217,20 +217,12 @@ func (s *TimerQueue) tick(t time.Time) {
 
 // 返回触发的timer列表
 func (s *TimerQueue) trigger(now int64) []*timerNode {
-	s.guard.Lock()
-	var maxId = s.nextId // written by nextID() under the mutex
-	s.guard.Unlock()
 	var expires []*timerNode
 	for len(s.timers) > 0 {
 		var node = s.timers[0] // peek first item of heap
 		if now < node.deadline {
 			break // no new timer expired
 		}
-		// make sure we don't process timer created by timer events
-		if node.id > maxId {
-			continue
-		}
-
 		// decide under the mutex: a timer cancelled in the meantime is dropped,
 		// a one-shot timer leaves the refer map before it is delivered
 		s.guard.Lock()
